@@ -270,6 +270,39 @@ def legal_variants() -> dict[str, bytes]:
     }
 
 
+def shift_decode_times(buf: bytes, seconds: int) -> bytes:
+    """every tfdt (and sidx earliest_presentation_time) moved later by `seconds`: a track that does not
+    start at decode time zero, as a recording cut out of a longer one"""
+    out = bytearray(buf)
+    root = ib.parse_file(buf)
+    ts = ib.index_file(buf).timescale
+    delta = seconds * ts
+    for b in root.walk():
+        if b.type == b'tfdt':
+            v, _, p = ib.fullbox(buf, b)
+            fmt = '>Q' if v == 1 else '>I'
+            struct.pack_into(fmt, out, p, struct.unpack_from(fmt, buf, p)[0] + delta)
+        elif b.type == b'sidx':
+            v, _, p = ib.fullbox(buf, b)
+            fmt = '>Q' if v == 1 else '>I'
+            struct.pack_into(fmt, out, p + 8, struct.unpack_from(fmt, buf, p + 8)[0] + delta)
+    return bytes(out)
+
+
+def add_offset_start_stream(env, res=None, directory: str = 'sy6', seconds: int = 100) -> int:
+    """bbb video, audio and text whose decode times all start at 100 s instead of 0"""
+    from dlv.appenv import FIXTURES
+    fx = FIXTURES / 'bbb'
+    files = {f'sy6_{k}': shift_decode_times((fx / f'bbb_{k}.mp4').read_bytes(), seconds) for k in ('v7', 'a1', 't1')}
+    for name, data in files.items():
+        sf = ib.index_file(data)
+        assert sf.segments[0].tfdt == seconds * sf.timescale, name
+    spk = env.add_stream(directory, title='Decode times start at 100 s', files=files)
+    if res is not None:
+        res.count('synthetic.streams')
+    return spk
+
+
 def add_retracked_video_stream(env, res=None, directory: str = 'vt5') -> int:
     """bbb with its video on track 5 (track ids only have to be unique within a stream): the video
     AdaptationSet of a manifest is numbered 1 whatever the track id is."""
